@@ -646,6 +646,11 @@ def _constrain_ages(
         # TODO: even if nodes_fixed[p], this will still change the age
         if nodes_time[c] + epsilon >= nodes_time[p]:
             nodes_time[p] = nodes_time[c] + epsilon
+            if not nodes_time[p] > nodes_time[c]:
+                # epsilon is below the floating point spacing at this age and was
+                # absorbed by the sum: use the next representable age, so that the
+                # parent stays strictly older than the child
+                nodes_time[p] = np.nextafter(nodes_time[c], np.inf)
 
     return nodes_time
 
